@@ -10,8 +10,10 @@ import traceback
 from fractions import Fraction
 
 ROOT = os.path.dirname(os.path.dirname(os.path.abspath(__file__)))
-EVID = os.path.join(ROOT, "evidence")
-REPL = os.path.join(ROOT, "replays")
+# (VERIF_EVIDENCE_DIR: scratch output directory for runs against seeded changes, so that they never overwrite the evidence of /repo itself)
+_OUTDIR = os.environ.get("VERIF_EVIDENCE_DIR")
+EVID = os.path.join(_OUTDIR, "evidence") if _OUTDIR else os.path.join(ROOT, "evidence")
+REPL = os.path.join(_OUTDIR, "replays") if _OUTDIR else os.path.join(ROOT, "replays")
 
 PROVED, FAILED, UNDECIDED, ERROR = "proved", "failed", "undecided", "error"
 
